@@ -829,6 +829,129 @@ func steerPublishDuringShutdown(workers int, emit func(string)) {
 	}
 }
 
+// steerShutdownDuringSubscribe: Shutdown is called, and completes, from another goroutine while
+// Serve is still subscribing (the service counts as started from the moment the workers run).
+// Serve must not panic, must return, and the service must be restartable.
+func steerShutdownDuringSubscribe(workers int, emit func(string)) {
+	if atomic.LoadInt32(&poolHung) != 0 {
+		return
+	}
+	e := &steerEnv{rec: &recorder{byRep: map[string]int{}, grp: map[int]string{}}, g: &gateCtl{holds: map[int]*hold{}}}
+	setHooks(e.rec.add, e.g.fn)
+	defer e.close()
+	emit("reset")
+	e.s = res.NewService("pool")
+	e.s.SetLogger(svc.NopLogger{})
+	e.s.SetWorkerCount(workers)
+	e.s.Handle("r.$id", res.Call("do", func(r res.CallRequest) { r.OK(nil) }))
+	e.s.Handle("q.$id", res.Call("do", func(r res.CallRequest) { r.OK(nil) }))
+	e.conn = recconn.New()
+	var once sync.Once
+	e.conn.OnSubscribe = func(string) {
+		once.Do(func() {
+			e.rec.add("h.shutdown.begin", "", 0)
+			sd := make(chan struct{})
+			go func() { e.s.Shutdown(); close(sd) }()
+			select {
+			case <-sd:
+				e.rec.add("h.shutdown.end", "", 0)
+			case <-time.After(3 * time.Second):
+				e.rec.add("h.shutdown.hung", "", 0)
+				atomic.StoreInt32(&poolHung, 1)
+			}
+		})
+	}
+	e.done = make(chan error, 1)
+	go func() {
+		defer func() {
+			if r := recover(); r != nil {
+				e.rec.add("h.serve.panic", "", 0)
+				e.done <- fmt.Errorf("panic: %v", r)
+			}
+		}()
+		e.done <- e.s.Serve(e.conn)
+	}()
+	select {
+	case <-e.done:
+	case <-time.After(3 * time.Second):
+		e.rec.add("h.serve.hung", "", 0)
+		atomic.StoreInt32(&poolHung, 1)
+		flushNotes(e.rec, emit)
+		return
+	}
+	e.rec.add("h.connclosed", "", e.conn.ClosedCount())
+	e.conn.OnSubscribe = nil
+	e.serveCycle()
+	flushNotes(e.rec, emit)
+}
+
+// steerStaleSubmitAcrossRestart: a submission passes the started-check, then the service is shut
+// down completely and served again; the submission takes the lock while serve is re-initialising
+// the queue state. Whatever becomes of it (refused, or accepted into the new cycle), a second
+// callback of the same group submitted afterwards may not run beside it.
+func steerStaleSubmitAcrossRestart(workers int, emit func(string)) {
+	e, err := newSteer(workers)
+	if err != nil {
+		return
+	}
+	defer e.close()
+	emit("reset")
+	unblock := make(chan struct{})
+	busy := make(chan struct{})
+	h, ret1, _ := e.submit("grp.s", "runWith.checked", func(int) { close(busy); <-unblock })
+	if waitCh(h.arrived, "stale submitter at the gate") != nil {
+		close(h.release)
+		close(unblock)
+		return
+	}
+	if !e.shutdown() {
+		close(h.release)
+		close(unblock)
+		flushNotes(e.rec, emit)
+		return
+	}
+	e.conn = recconn.New()
+	served := make(chan struct{})
+	e.s.SetOnServe(func(*res.Service) { close(served) })
+	e.done = make(chan error, 1)
+	hc := make(chan *hold, 1)
+	go func() {
+		hc <- e.g.holdAt("serve.init")
+		e.done <- e.s.Serve(e.conn)
+	}()
+	hs := <-hc
+	if waitCh(hs.arrived, "serve at its initialisation") != nil {
+		close(h.release)
+		close(hs.release)
+		close(unblock)
+		return
+	}
+	// the stale submission goes for the lock now; if serve initialises under the mutex it waits there
+	close(h.release)
+	select {
+	case <-ret1:
+	case <-time.After(20 * time.Millisecond):
+	}
+	close(hs.release)
+	if waitCh(served, "serve again") != nil {
+		close(unblock)
+		return
+	}
+	waitCh(ret1, "stale submission")
+	select { // if it was accepted its callback is running by now
+	case <-busy:
+	case <-time.After(30 * time.Millisecond):
+	}
+	_, ret2, _ := e.submit("grp.s", "", nil)
+	waitCh(ret2, "second submission")
+	time.Sleep(15 * time.Millisecond) // were it not serialised behind the first, it would have run by now
+	close(unblock)
+	time.Sleep(5 * time.Millisecond)
+	e.rec.add("h.quiescent", "", 1)
+	e.shutdown()
+	flushNotes(e.rec, emit)
+}
+
 func steerAll(emit func(string)) {
 	for _, w := range []int{1, 2, 3} {
 		steerLateSubmit(w, "slow", emit)
@@ -845,5 +968,7 @@ func steerAll(emit func(string)) {
 		steerShutdownInOnServe(w, emit)
 		steerSubscribeFails(w, 0, emit)
 		steerSubscribeFails(w, 2, emit)
+		steerShutdownDuringSubscribe(w, emit)
+		steerStaleSubmitAcrossRestart(w, emit)
 	}
 }
